@@ -207,6 +207,15 @@ class ExecExpr(ExecBase):
                 yield s2, self.binop(s2, node.op, a, b)
 
     def binop(self, st, op, a, b):
+        if isinstance(op, (ast.Add, ast.Sub)) and (isinstance(a, VRange) or isinstance(b, VRange)):
+            # numpy element-wise scalar + asarray(range(lo, hi))  (assumed external contract, probed at run time)
+            self.trusted_used.add("numpy: scalar + asarray(range) is element-wise (assumed, probed)")
+            if isinstance(a, VRange) and isinstance(b, V) and b.kind == "int":
+                sh = b.t if isinstance(op, ast.Add) else -b.t
+                return VRange(V("int", a.lo.t + sh), V("int", a.hi.t + sh))
+            if isinstance(b, VRange) and isinstance(a, V) and a.kind == "int" and isinstance(op, ast.Add):
+                return VRange(V("int", b.lo.t + a.t), V("int", b.hi.t + a.t))
+            raise EngineError("arithmetic on range")
         if isinstance(op, ast.Add):
             if isinstance(a, (VList, VTuple)) and isinstance(b, (VList, VTuple)):
                 return type(a)(a.items + b.items)
@@ -280,6 +289,10 @@ class ExecExpr(ExecBase):
         s = st.fork()
         s.assume(guard)
         base = len(s.pc)
+        if not self.feasible(s):
+            # the operand can never be evaluated on this path (e.g. `not typeis(x, C) or x.f` with x of another class)
+            yield st, V("bool", z3.BoolVal(False))
+            return
         outs = list(self.eval(node, s))
         if len(outs) == 1 and self.same_heap(outs[0][0], st):
             s2, v = outs[0]
